@@ -625,10 +625,20 @@ func resolveAllProtocolChanges(newEnv, oldEnv *Environment, context *EvolutionCo
 				continue
 			}
 
-			if protocolChange := compareProtocolDefinitions(newProt, oldProt, context); protocolChange != nil {
+			protocolChange := compareProtocolDefinitions(newProt, oldProt, context)
+			oldSchema := GetProtocolSchemaString(oldProt, oldEnv.SymbolTable)
+			if protocolChange != nil {
 				// Annotate the ProtocolChange with the Old ProtocolDefinition schema string
-				protocolChange.PreviousSchema = GetProtocolSchemaString(oldProt, oldEnv.SymbolTable)
+				protocolChange.PreviousSchema = oldSchema
 				allProtocolChanges[oldProt.GetQualifiedName()] = protocolChange
+			} else if oldSchema != GetProtocolSchemaString(newProt, newEnv.SymbolTable) {
+				// The data did not change but the schema text did (e.g. an alias was added or removed):
+				// the old schema still has to be recognized by readers and written by writers of that version
+				allProtocolChanges[oldProt.GetQualifiedName()] = &ProtocolChange{
+					DefinitionPair: DefinitionPair{oldProt, newProt},
+					PreviousSchema: oldSchema,
+					StepChanges:    make([]TypeChange, len(newProt.Sequence)),
+				}
 			}
 		}
 	}
